@@ -24,6 +24,7 @@ import (
 var out = bufio.NewWriterSize(os.Stdout, 1<<20)
 var evals = 0
 var seen = map[string]bool{}
+var dc, _ = bx.LoadDontCare("/verif/c01_dontcare.json")
 
 func fail(site, class, witness, desc string) {
 	k := site + "/" + class
@@ -170,8 +171,12 @@ func doFiles(repo string) (nfiles int) {
 					a := fileAgg(f, site)
 					enc := history(a, w, opt)
 					if enc != nil && mode == mp4.EncModeBoxTree && !opt && !bytes.Equal(enc, data) {
-						// not a C02 matter; C01_file_boxtree is explored here for free
-						fmt.Fprintf(out, "NOTE\tboxtree-reencode-differs\t%s\t%d->%d\n", rel, len(data), len(enc))
+						// not a C02 matter; C01_file_boxtree is explored here for free (masked with the C01 don't-care list)
+						if dc != nil {
+							if pos := bx.MaskedDiff(data, enc, dc.Mask(data)); pos >= 0 {
+								fmt.Fprintf(out, "NOTE\tboxtree-reencode-differs\t%s\t%d->%d first masked difference at %d\n", rel, len(data), len(enc), pos)
+							}
+						}
 					}
 					// parts, on a fresh decode (the history above mutated f)
 					f2, err := decodeFile(data, sr, mode)
